@@ -7,6 +7,11 @@ open TinkVerif TinkVerif.Manager
 structure St where
   mgrs : Array MState := #[]
   handles : Array (Option Handle) := #[]
+  /-- keyset annotations (canonical token, "-" = none) held by each manager / carried by each handle.
+  Annotations are outside `MState`: they are replaced as a whole by `setann`, copied to a handle by `handle`
+  and dropped by `fromhandle`; no manager op reads them. -/
+  anns : Array String := #[]
+  hanns : Array String := #[]
   deriving Inhabited
 
 def statusCode : Status → String
@@ -44,6 +49,10 @@ def entries? (s : String) : Option (List MEntry) :=
 def setAt {α} [Inhabited α] (a : Array α) (i : Nat) (x : α) : Array α :=
   if i < a.size then a.set! i x else (a ++ Array.replicate (i - a.size) default).push x
 
+def annOf (a : Array String) (i : Nat) : String :=
+  let s := a.getD i "-"
+  if s.isEmpty then "-" else s
+
 def doStep (st : St) (m : Nat) (op : Op) : St × String :=
   let s := st.mgrs.getD m init
   let (s', out) := step s op
@@ -54,7 +63,7 @@ def handle (st : St) (toks : List String) : Option (St × String) :=
   | ["reset"] => pure ({}, "ok")
   | ["new", m] => do
     let m ← m.toNat?
-    pure ({ st with mgrs := setAt st.mgrs m init }, "ok")
+    pure ({ st with mgrs := setAt st.mgrs m init, anns := setAt st.anns m "-" }, "ok")
   | ["add", m, tmplOk, genOk, key, draws] => do
     pure (doStep st (← m.toNat?) (.add (← bool? tmplOk) (← bool? genOk) (← key.toNat?) (← natList? draws)))
   | ["addkey", m, keyNil, key, idReq, draws] => do
@@ -69,17 +78,18 @@ def handle (st : St) (toks : List String) : Option (St × String) :=
     let m ← m.toNat?
     let h ← h.toNat?
     let r := Manager.handle (st.mgrs.getD m init)
-    pure ({ st with handles := setAt st.handles h r }, if r.isSome then "ok" else "err")
+    let a := if r.isSome then annOf st.anns m else "-"
+    pure ({ st with handles := setAt st.handles h r, hanns := setAt st.hanns h a }, if r.isSome then "ok" else "err")
   | ["fromhandle", h, m] => do
     let m ← m.toNat?
     let h ← h.toNat?
     match st.handles.getD h none with
     | none => pure (st, "nohandle")
-    | some hd => pure ({ st with mgrs := setAt st.mgrs m (fromHandle hd) }, "ok")
+    | some hd => pure ({ st with mgrs := setAt st.mgrs m (fromHandle hd), anns := setAt st.anns m "-" }, "ok")
   | ["defhandle", h, es] => do
     let h ← h.toNat?
     let es ← entries? es
-    pure ({ st with handles := setAt st.handles h (some es) }, "ok")
+    pure ({ st with handles := setAt st.handles h (some es), hanns := setAt st.hanns h "-" }, "ok")
   | ["dump", m] => do
     let s := st.mgrs.getD (← m.toNat?) init
     pure (st, s!"{showEntries s.entries} | {showNatList (sortNat s.unavail.eraseDups)}")
@@ -89,6 +99,17 @@ def handle (st : St) (toks : List String) : Option (St × String) :=
     | some hd =>
       let p := match Handle.primary hd with | some e => toString e.id | none => "-"
       pure (st, s!"{showEntries hd} | {p}")
+  -- annotations (C11 round 3b): `setann m a src` replaces manager m's annotations (src = provenance of the
+  -- caller's map, ignored), `annmut i kind` is a mutation of a caller-side map after it was passed to
+  -- SetAnnotations (no effect on any manager or handle), `hann h` = annotations handle h was created with.
+  | ["setann", m, a, _src] => do
+    pure ({ st with anns := setAt st.anns (← m.toNat?) a }, "ok")
+  | ["annmut", _i, _kind] => pure (st, "ok")
+  | ["hann", h] => do
+    let h ← h.toNat?
+    match st.handles.getD h none with
+    | none => pure (st, "nohandle")
+    | some _ => pure (st, annOf st.hanns h)
   | _ => none
 
 end Driver.Mgr
